@@ -10,7 +10,16 @@ import sys
 import time
 
 VERIF = os.path.dirname(os.path.dirname(os.path.abspath(__file__)))
-REPO = os.environ.get("VERIF_REPO", "/repo")
+def _repo_path():
+    f = os.path.join(VERIF, ".repo_path")
+    if os.environ.get("VERIF_REPO"):
+        return os.environ["VERIF_REPO"]
+    if os.path.exists(f):
+        return open(f).read().strip()
+    return "/repo"
+
+
+REPO = _repo_path()
 LEAN = os.path.join(VERIF, "lean")
 HARNESS = os.path.join(VERIF, "harness")
 EVID = os.path.join(VERIF, "evidence")
@@ -78,13 +87,13 @@ def lake_build(targets):
     return rc == 0, out
 
 
-def harness_path(nan_boxing=False, release=False):
+def harness_path(nan_boxing=False, release=False, bin="vharness"):
     d = "target-nb" if nan_boxing else "target"
-    return os.path.join(HARNESS, d, "release" if release else "debug", "vharness")
+    return os.path.join(HARNESS, d, "release" if release else "debug", bin)
 
 
-def cargo_build(nan_boxing=False, release=False):
-    """Build the harness against /repo's working tree with hooks on. Returns (ok, output)."""
+def cargo_build(nan_boxing=False, release=False, bin="vharness"):
+    """Build one harness binary against /repo's working tree with hooks on. Returns (ok, output)."""
     lock = os.path.join(HARNESS, "Cargo.lock")
     try:
         src = open(os.path.join(REPO, "Cargo.lock")).read()
@@ -92,7 +101,7 @@ def cargo_build(nan_boxing=False, release=False):
             open(lock, "w").write(src)
     except OSError:
         pass
-    cmd = ["cargo", "build", "--offline", "--quiet"]
+    cmd = ["cargo", "build", "--offline", "--quiet", "--bin", bin]
     if release:
         cmd.append("--release")
     if nan_boxing:
@@ -101,6 +110,56 @@ def cargo_build(nan_boxing=False, release=False):
     with BuildLock("cargo-nb" if nan_boxing else "cargo"):
         rc, out = sh(cmd, cwd=HARNESS, env=env, timeout=3000)
     return rc == 0, out
+
+
+def _run_shard(args):
+    harness, reqs, timeout = args
+    """reqs: list of request lines for `vharness runbatch`. Returns list of dict (one per request)."""
+    out = []
+    i = 0
+    while i < len(reqs):
+        chunk = reqs[i:]
+        try:
+            p = subprocess.run([harness, "runbatch"], input="".join(r + "\n" for r in chunk), stdout=subprocess.PIPE,
+                               stderr=subprocess.PIPE, text=True, timeout=timeout)
+            lines = [l for l in p.stdout.split("\n") if l.strip()]
+            rc = p.returncode
+        except subprocess.TimeoutExpired as ex:
+            so = ex.stdout or b""
+            if isinstance(so, bytes):
+                so = so.decode("utf8", "replace")
+            lines = [l for l in so.split("\n") if l.strip()]
+            rc = "timeout"
+        good = []
+        for l in lines:
+            try:
+                good.append(json.loads(l))
+            except ValueError:
+                break
+        out.extend(good)
+        i += len(good)
+        if len(good) < len(chunk):
+            # the process died (or timed out) inside request i: record it and continue after it
+            out.append({"file": reqs[i].split()[-1], "status": "CRASH:%s" % rc, "stdout": "", "stderr": ""})
+            i += 1
+    return out
+
+
+def run_batch(reqs, nan_boxing=False, release=False, jobs=None, timeout=600):
+    """Run request lines (`[options] file`) through `vharness runbatch`, sharded over processes;
+    a host abort/segfault/timeout is isolated to the single request that caused it."""
+    import concurrent.futures
+    harness = harness_path(nan_boxing, release)
+    jobs = jobs or NCPU
+    n = max(1, min(jobs, (len(reqs) + 7) // 8))
+    shards = [reqs[k::n] for k in range(n)]
+    res = [None] * len(reqs)
+    with concurrent.futures.ThreadPoolExecutor(max_workers=n) as ex:
+        outs = list(ex.map(_run_shard, [(harness, sh_, timeout) for sh_ in shards]))
+    for k, o in enumerate(outs):
+        for j, r in enumerate(o):
+            res[k + j * n] = r
+    return res
 
 
 def lean_theorems(module_files):
